@@ -8,7 +8,7 @@ TECHNIQUE = "runtime monitoring: progress assertion at every quiescent point (no
 RULE = ("generated definitions (incl. with-items, retry, joins, loops) x hashed outcomes x seeded schedules, free and "
         "with pause/resume/cancel requests and crashes inserted at seeded positions and at every position of base "
         "histories; the four historical stuck shapes (failed with-items item, pending task, with-items in a cycle, "
-        "resume of a finished paused workflow) are generated classes; additionally the decision-shape family (exhaustive in the thorough tier, a rotating slice in the quick tier): every acyclic edge set over 4 tasks with a join x condition succeeded/failed per edge x outcome per task (4128 definitions); tasks that wait at the provider (an action reports pending or paused and is not in flight: the workflow must rest paused, go on when the action is answered / runs again and the workflow is resumed); actions canceled on the provider side; a pause followed by a cancel; non-trivial = history that reached at least one "
+        "resume of a finished paused workflow) are generated classes; remediation loops around a with-items task (its failure leads back to it directly or through a plain task, 24 definitions x outcomes x schedules); additionally the decision-shape family (exhaustive in the thorough tier, a rotating slice in the quick tier): every acyclic edge set over 4 tasks with a join x condition succeeded/failed per edge x outcome per task (4128 definitions); tasks that wait at the provider (an action reports pending or paused and is not in flight: the workflow must rest paused, go on when the action is answered / runs again and the workflow is resumed); actions canceled on the provider side; a pause followed by a cancel; non-trivial = history that reached at least one "
         "quiescent point after at least one completion report; distinct = (definition, history) digest")
 ASSUMPTIONS = ASSUME_SIM + ["liveness is restated as safety at quiescent points, which is exact because the conductor never acts spontaneously"]
 
